@@ -83,6 +83,43 @@ pub fn matches_known_finding(text: &str, spec: &OptSpec) -> bool {
     false
 }
 
+pub const KF2: &str = "KF-C14-2";
+
+/// Signature of KF-C14-2: Unicode separator, hyphen splitter, and some piece
+/// that the splitter cuts off a word is — taken on its own, as the second
+/// pass sees it at the start of a line — broken into several words by the
+/// separator, although it was one unbreakable stretch inside its word (the
+/// break opportunities inside the piece depended on the context the cut
+/// removed: a combining mark directly after the hyphen, which belongs to the
+/// hyphen in context and counts as a letter at the start of a line, while a
+/// rule such as "no break after Hebrew letter + hyphen" held the rest
+/// together).
+pub fn matches_known_finding_2(text: &str, spec: &OptSpec) -> bool {
+    if spec.split != Split::Hyphen || spec.sep != Sep::Unicode || !text.contains('-') {
+        return false;
+    }
+    let splitter = spec.split.splitter();
+    for par in text.split(spec.ending()) {
+        for w in spec.separator().find_words(par) {
+            let points = splitter.split_points(w.word);
+            if points.is_empty() {
+                continue;
+            }
+            let mut prev = 0;
+            for p in points.iter().copied().chain(std::iter::once(w.word.len())) {
+                if p > prev && p <= w.word.len() && w.word.is_char_boundary(p) && w.word.is_char_boundary(prev) {
+                    let piece = &w.word[prev..p];
+                    if prev > 0 && spec.separator().find_words(piece).count() > 1 {
+                        return true;
+                    }
+                }
+                prev = p;
+            }
+        }
+    }
+    false
+}
+
 pub fn check(c: &Case, mode: Mode) -> Outcome {
     let spec = &c.spec;
     if !spec.supported() {
@@ -104,6 +141,9 @@ pub fn check(c: &Case, mode: Mode) -> Outcome {
     }
     if mode == Mode::Normal && matches_known_finding(t, spec) {
         return Outcome::Known(KF);
+    }
+    if mode == Mode::Normal && matches_known_finding_2(t, spec) {
+        return Outcome::Known(KF2);
     }
     let f1 = textwrap::fill(t, spec.options());
     if let Algo::Optimal(_) = spec.algo {
